@@ -144,7 +144,7 @@ def file_events(name, calls, upto=None):
     return evs
 
 
-def model_check(ctx):
+def model_check(ctx, tier="quick"):
     """spec/FileIO.tla: replace-by-rename keeps the target complete in every state; the pinned procedure does not (the
     negative configurations MUST fail: they are the specification-level statement of the two known findings)"""
     from . import tlc
@@ -154,12 +154,19 @@ def model_check(ctx):
         ctx.ev.add_tlc("MC_FileIO %s (%s)" % (cfg, "invariants hold" if must_hold else "negative configuration: must violate, and does: %s" % r.violated), r)
         if r.ok != must_hold:
             raise Machinery("MC_FileIO %s: expected %s, TLC says %s %s" % (cfg, "success" if must_hold else "a violation", r.ok, r.violated))
+    if tier == "thorough":
+        # unbounded: replace-by-rename keeps the target complete for ANY number of write-backs and write calls (inductive invariant, Apalache)
+        from . import apalache
+        a = apalache.inductive("FileIO_apa", ["FileIO"])
+        ctx.ev.parts["apalache_FileIO_inductive_invariant"] = a
+        if a["result"] == "violated":
+            raise Machinery("FileIO_apa: IndInv is not inductive: %s" % a)
 
 
 def enumerate_kills(ctx, tier):
     if shutil.which("strace") is None:
         raise Machinery("strace is not available")
-    model_check(ctx)
+    model_check(ctx, tier)
     names = ["fixable", "fix2"] if tier == "quick" else ["fixable", "fixtok", "fix2", "big"]
     dry = impl.pmap(_one, [(n, None) for n in names], procs=len(names))
     jobs = []
